@@ -664,6 +664,9 @@ pub fn os_tid() -> u64 {
 
 /// Waits until `condition` holds; classifies a stuck wait like `await_ack` does.
 pub fn wait_until<F: Fn() -> bool>(what: &str, condition: F) -> Result<(), Waited> {
+    // after a classified hang nothing of the case is waited for any more, and nothing that follows a successful wait (API calls from the
+    // monitor's own thread, which would block on the very locks that are stuck) may run
+    if aborted() { return Err(Waited::Inconclusive("case aborted after a classified hang".into())); }
     let started = Instant::now();
     let mut idle_since = Instant::now();
     let mut last_progress = recorder().progress.load(Ordering::Relaxed);
